@@ -383,8 +383,87 @@ def construction_route_cases(ctx):
                            "first_failing_clause": "the same is true of every pattern nested inside it"})
 
 
+def late_seed_cases(ctx):
+    """'a newly constructed, identically seeded instance': WHEN the seed is given does not matter — a stochastic pattern that is
+    seeded after it was wrapped in another pattern, and then rewound, plays what an instance seeded before the wrapping plays
+    (a wrapper that read its input early must read it again at reset).  Implementation-only oracle."""
+    common.ensure_repo_on_path()
+    import isobar as iso
+    r = ctx.rng
+    inners = {
+        # -> (the stochastic pattern that is seeded, the finite pattern that is wrapped)
+        "white": lambda: (lambda c: (c, c))(iso.PWhite(0, 100, length=r_len[0])),
+        "shuffle": lambda: (lambda c: (c, c))(iso.PShuffle([1, 2, 3, 4, 5, 6], 1)),
+        "choice": lambda: (lambda c: (c, iso.PSubsequence(c, 0, r_len[0])))(iso.PChoice([1, 2, 3, 4, 5])),
+        "brown": lambda: (lambda c: (c, iso.PSubsequence(c, 0, r_len[0])))(iso.PBrown(0, 3, -50, 50)),
+    }
+    wrappers = {
+        "pingpong": lambda p: iso.PPingPong(p, 2), "loop": lambda p: iso.PLoop(p, 2), "reverse": lambda p: iso.PReverse(p),
+        "stutter": lambda p: iso.PStutter(p, 2), "permut": lambda p: iso.PPermut(iso.PSubsequence(p, 0, 3), 3),
+        "add": lambda p: p + 1, "pad": lambda p: iso.PPad(p, 12), "collapse": lambda p: iso.PCollapse(p),
+        "concat": lambda p: iso.PConcatenate([p, iso.PSequence([-1], 1)]), "direct": lambda p: p,
+    }
+    r_len = [4]
+
+    def pull(o, m):
+        out = []
+        for _ in range(m):
+            try:
+                out.append(next(o))
+            except StopIteration:
+                out.append("stop")
+                break
+        return out
+    for i in range(ctx.scale(150, 5000)):
+        r_len[0] = r.randint(2, 7)
+        ik, wk = r.choice(sorted(inners)), r.choice(sorted(wrappers))
+        seed = r.randrange(1 << 30)
+        k = r.choice([0, 0, 1, 2, 3, 5])
+        how = r.choice(["reset", "reset", "all"])
+        n = r.randint(4, 20)
+        import signal
+
+        class _Hang(BaseException):
+            pass
+
+        def _alarm(*_a):
+            raise _Hang()
+        old_handler = signal.signal(signal.SIGALRM, _alarm)
+        signal.alarm(5)
+        try:
+            early_core, early_inner = inners[ik]()
+            early_core.seed(seed)
+            fresh = pull(wrappers[wk](early_inner), n)
+            late_core, late_inner = inners[ik]()
+            o = wrappers[wk](late_inner)
+            pull(o, k)
+            late_core.seed(seed)
+            if how == "reset":
+                o.reset()
+            else:
+                o.all(50)
+            again = pull(o, n)
+        except Exception as ex:  # noqa: BLE001
+            fresh, again = None, "raised %s" % type(ex).__name__
+        except _Hang:
+            fresh, again = None, "does not return"
+        finally:
+            signal.alarm(0)
+            signal.signal(signal.SIGALRM, old_handler)
+        ctx.case(("late-seed", ik, wk, r_len[0], seed, k, how), nontrivial=True, validated=False,
+                 sample={"late_seed": {"inner": ik, "wrapper": wk, "consumed": k, "helper": how}} if i < 3 else None)
+        ctx.count("late-seed:" + wk, "late-seed-inner:" + ik)
+        if fresh != again:
+            ctx.violation("C04:seeded-after-wrapping:" + wk,
+                          "%s(%s): seeded with %d after wrapping (and after %d values), then %s: plays %s; an instance seeded before the "
+                          "wrapping plays %s" % (wk, ik, seed, k, how, again[:12] if isinstance(again, list) else again, (fresh or [])[:12]),
+                          {"suite": "c04-late-seed", "inner": ik, "wrapper": wk, "length": r_len[0], "seed": seed, "consumed": k, "helper": how,
+                           "first_failing_clause": "reset() = a newly constructed, identically seeded instance"})
+
+
 def run(ctx):
     structure_change_cases(ctx)
+    late_seed_cases(ctx)
     construction_route_cases(ctx)
     configured_cases(ctx)
     boundary_all_cases(ctx)
